@@ -102,8 +102,53 @@ inductive MovKind where
                -- (MOVAPS/MOVAPD/MOVUPS/MOVUPD/MOVOA/MOVOU) between XMM registers: copies the lanes of the operand
   | zext32     -- MOVL: copies the low 32 bits and clears bits 32–63
   | vecLow64   -- MOVQ between vector registers: copies the low 64 bits and clears bits 64–127
+  | copyZero (n top : Nat)
+               -- copies lanes 0..n-1 of the source, CLEARS lanes n..top-1 of the destination, preserves lanes ≥ top:
+               -- VEX/EVEX full-register moves (n = lanes of the operand, top = 7: a VEX/EVEX write clears everything
+               -- above the vector length up to bit 511), VMOVQ x,x (4, 7), legacy MOVSD/MOVSS x,x (4,4 / 3,3: merge),
+               -- KMOVB/W/D/Q k,k (1..4, 4: zero-extended to 64 bits)
   | notAMove
   deriving Repr, DecidableEq
+
+/-- Number of byte lanes of a vector operand (lanes = bytes {0},{1},{2,3},{4..7},{8..15},{16..31},{32..63}). -/
+def vecLanes (mask : Nat) : Nat :=
+  if mask = S128 then 5 else if mask = S256 then 6 else if mask = S512 then 7 else 0
+
+/-- VEX / EVEX encoded moves of a whole XMM/YMM/ZMM register (two-operand, unmasked forms). -/
+def vexFullMoves : List String :=
+  ["VMOVAPD", "VMOVAPS", "VMOVUPD", "VMOVUPS", "VMOVDQA", "VMOVDQU",
+   "VMOVDQA32", "VMOVDQA64", "VMOVDQU8", "VMOVDQU16", "VMOVDQU32", "VMOVDQU64"]
+
+/-- Both operands are views of the given width of vector registers. -/
+def bothVec (src dst : R) (mask : Nat) : Prop :=
+  idKind dst.id = kindVector ∧ idKind src.id = kindVector ∧ dst.mask = mask ∧ src.mask = mask
+
+instance (src dst : R) (mask : Nat) : Decidable (bothVec src dst mask) := by unfold bothVec; infer_instance
+
+/-- `MOVQ` and its assembler aliases `MOVD`, `MOVDQ2Q` between two registers of one file. -/
+def movqKind (src dst : R) : MovKind :=
+  if idKind dst.id = kindGP ∧ idKind src.id = kindGP then
+    (if dst.mask = S64 ∧ src.mask = S64 then .plain else .notAMove)
+  else if bothVec src dst S128 then .vecLow64
+  else .notAMove
+
+/-- The move opcodes beyond MOVB/MOVW/MOVL/MOVQ and the legacy full SSE moves. -/
+def movKindExt (opcode : String) (src dst : R) : MovKind :=
+  if vexFullMoves.contains opcode then
+    (if idKind dst.id = kindVector ∧ idKind src.id = kindVector ∧ dst.mask = src.mask ∧ vecLanes dst.mask ≠ 0
+     then .copyZero (vecLanes dst.mask) 7 else .notAMove)
+  else if opcode = "VMOVQ" then (if bothVec src dst S128 then .copyZero 4 7 else .notAMove)
+  else if opcode = "MOVD" ∨ opcode = "MOVDQ2Q" then movqKind src dst
+  else if opcode = "MOVO" then (if bothVec src dst S128 then .plain else .notAMove)   -- = MOVOA
+  else if opcode = "MOVSD" then (if bothVec src dst S128 then .copyZero 4 4 else .notAMove)
+  else if opcode = "MOVSS" then (if bothVec src dst S128 then .copyZero 3 3 else .notAMove)
+  else if idKind dst.id = kindOpmask ∧ idKind src.id = kindOpmask ∧ dst.mask = S64 ∧ src.mask = S64 then
+    (if opcode = "KMOVB" then .copyZero 1 4
+     else if opcode = "KMOVW" then .copyZero 2 4
+     else if opcode = "KMOVD" then .copyZero 3 4
+     else if opcode = "KMOVQ" then .copyZero 4 4
+     else .notAMove)
+  else .notAMove
 
 def movKind (opcode : String) (src dst : R) : MovKind :=
   if opcode = "MOVB" then
@@ -118,7 +163,7 @@ def movKind (opcode : String) (src dst : R) : MovKind :=
   else if opcode = "MOVAPS" ∨ opcode = "MOVAPD" ∨ opcode = "MOVUPS" ∨ opcode = "MOVUPD" ∨ opcode = "MOVOA" ∨ opcode = "MOVOU" then
     -- legacy SSE encodings: bits 0-127 are copied, bits 128 and up of the destination are preserved
     (if idKind dst.id = kindVector ∧ idKind src.id = kindVector ∧ dst.mask = S128 ∧ src.mask = S128 then .plain else .notAMove)
-  else .notAMove
+  else movKindExt opcode src dst
 
 /-- Effect of `MOVx src, dst` between registers on the register file:
 the destination's lanes receive the source's lanes position-wise; a 32-bit
@@ -130,6 +175,55 @@ def execMov (opcode : String) (src dst : R) (σ : RegFile) : Option RegFile :=
   | .plain => some (writeLanes σ dst.id copy)
   | .zext32 => some (writeLanes σ dst.id (copy ++ [(3, 0)]))
   | .vecLow64 => some (writeLanes σ dst.id ((List.range 4).map (fun l => (l, σ src.id l)) ++ [(4, 0)]))
+  | .copyZero n top => some (fun i l =>
+      if i = dst.id then (if l < n then σ src.id l else if l < top then 0 else σ i l) else σ i l)
   | .notAMove => none
+
+/-- A kind of move whose self-move (same register on both sides) is the identity on every register file. -/
+def isNoopKind : MovKind → Bool
+  | .plain => true
+  | .copyZero n top => decide (top ≤ n)
+  | _ => false
+
+/-! ### Masked (EVEX, opmask) register-to-register moves: `OPC src, k, dst`
+
+Each element of the destination below the vector length receives the source
+element where the mask bit is set and otherwise keeps its value (merge
+masking) or becomes zero (zeroing masking, opcode suffix `.Z`); everything
+above the vector length is cleared.  Elements are finer than the byte lanes of
+the register model, so the per-lane outcome is an arbitrary *blend* of the new
+and the old lane value that may depend on the mask register and the lane — with
+the one law that blending a value with itself gives that value. -/
+
+structure Blend where
+  sel : (Nat → Nat) → Nat → Nat → Nat → Nat     -- mask register lanes, lane, new value, old value
+  same : ∀ m l x, sel m l x x = x
+
+/-- EVEX moves that accept an opmask operand. -/
+def maskableMoves : List String :=
+  ["VMOVAPD", "VMOVAPS", "VMOVUPD", "VMOVUPS",
+   "VMOVDQA32", "VMOVDQA64", "VMOVDQU8", "VMOVDQU16", "VMOVDQU32", "VMOVDQU64"]
+
+/-- `(lanes of the operand, zeroing?)` of a masked move; the request encodes suffixes into the opcode (`VMOVDQU32.Z`). -/
+def maskedKind (opcode : String) (src k dst : R) : Option (Nat × Bool) :=
+  if idKind dst.id = kindVector ∧ idKind src.id = kindVector ∧ idKind k.id = kindOpmask ∧
+      dst.mask = src.mask ∧ vecLanes dst.mask ≠ 0 then
+    (if maskableMoves.contains opcode then some (vecLanes dst.mask, false)
+     else if (maskableMoves.map (· ++ ".Z")).contains opcode then some (vecLanes dst.mask, true)
+     else none)
+  else none
+
+def execMovMasked (B : Blend) (opcode : String) (src k dst : R) (σ : RegFile) : Option RegFile :=
+  match maskedKind opcode src k dst with
+  | none => none
+  | some (n, z) => some (fun i l =>
+      if i = dst.id then
+        (if l < n then B.sel (σ k.id) l (σ src.id l) (if z then 0 else σ dst.id l)
+         else if l < 7 then 0 else σ i l)
+      else σ i l)
+
+/-- A merge-masked move of a whole ZMM register. -/
+def isNoopMasked (opcode : String) (src k dst : R) : Bool :=
+  maskedKind opcode src k dst == some (7, false)
 
 end Avo.Cleanup
